@@ -57,6 +57,15 @@ func syncDAG(ctx context.Context, blockService blockservice.BlockService, block 
 
 	linkSystem := makeLinkSystem(blockService)
 
+	// Verify the signature before the block is stored, so that a block whose
+	// signature does not verify never enters the DAG store.
+	if block.Signature != nil {
+		_, err := coreblock.VerifyBlockSignature(block, &linkSystem)
+		if err != nil {
+			return err
+		}
+	}
+
 	// Store the block in the DAG store
 	_, err := linkSystem.Store(linking.LinkContext{Ctx: ctx}, coreblock.GetLinkPrototype(), block.GenerateNode())
 	if err != nil {
